@@ -2,6 +2,7 @@ package main
 
 import (
 	"go/types"
+	"strings"
 
 	"golang.org/x/tools/go/ssa"
 )
@@ -28,6 +29,7 @@ func (x *Exec) mapLookup(st *State, fr *Frame, ins *ssa.Lookup, m, key V) V {
 	}, false)
 	if ins.CommaOk {
 		ok := st.freshConst("mapok", "Bool")
+		x.assumeMapInv(st, key, val, ok)
 		return vTuple(val, vBool(ok))
 	}
 	return val
@@ -46,6 +48,28 @@ func (x *Exec) mapUpdate(st *State, fr *Frame, ins *ssa.MapUpdate) {
 	m := st.operand(ins.Map)
 	x.oblige(st, x.instrName(fr, ins, "mapupdate"), "nilmap", x.safetyTags(fr), not(eq(m.T, bvLit(0, 64))), x.posOf(ins.Pos()), "assignment to an entry of a non-nil map")
 	st.assume(not(eq(m.T, bvLit(0, 64))))
+	if x.con != nil && x.con.MapInv != nil {
+		name := x.instrName(fr, ins, "mapupdate") + ".invariant"
+		if t, has := x.mapInv(st, st.operand(ins.Key), st.operand(ins.Value), true); has {
+			x.oblige(st, name, "mapinvariant", x.tagsOr(x.con.MapInv.Tags, fr), t, x.posOf(ins.Pos()), "the entry written satisfies the map invariant: "+x.con.MapInv.Text)
+		} else {
+			x.genFail(name, "mapinvariant", x.con.MapInv.Tags, x.posOf(ins.Pos()), "map invariant could not be evaluated")
+		}
+		// table entries must own their bytes: nothing stored may point into a caller's buffer
+		for _, v := range []V{st.operand(ins.Key), st.operand(ins.Value)} {
+			var ls []V
+			leaves(v, &ls)
+			for _, l := range ls {
+				if l.K == KPtr && l.Prov != nil && strings.HasPrefix(l.Prov.Space, "B") {
+					goal := "true"
+					if strings.HasPrefix(l.Prov.Region, "in:") {
+						goal = "false"
+					}
+					x.oblige(st, x.instrName(fr, ins, "mapupdate")+".noalias", "alias", x.tagsOr(x.con.MapInv.Tags, fr), goal, x.posOf(ins.Pos()), "bytes stored in the map are not the caller's input bytes (region "+l.Prov.Region+")")
+				}
+			}
+		}
+	}
 	st.materialize(st.operand(ins.Key), ins.Key.Type())
 	st.materialize(st.operand(ins.Value), ins.Value.Type())
 	st.havoc("H", x.heapKeep(st))
@@ -81,5 +105,39 @@ func (x *Exec) rangeNext(st *State, fr *Frame, ins *ssa.Next) V {
 		}, false))
 	}
 	x.noteAssumption("range over a map/string is an abstract enumeration: each element once, order and contents unconstrained")
+	if len(out) == 3 {
+		x.assumeMapInv(st, out[1], out[2], ok)
+	}
 	return vTuple(out...)
+}
+
+// mapInv evaluates the function's map invariant for one (key, val) pair.
+func (x *Exec) mapInv(st *State, key, val V, prove bool) (string, bool) {
+	if x.con == nil || x.con.MapInv == nil {
+		return "", false
+	}
+	env := &CEnv{st: st, vars: map[string]V{"key": key, "val": val}, fn: x.key, prove: prove}
+	t, err := env.evalBool(x.con.MapInv.Expr)
+	if err != nil {
+		x.warn("map invariant: %v", err)
+		return "", false
+	}
+	if !prove {
+		x.noteAssumption(x.key + ": map invariant assumed for entries read: " + x.con.MapInv.Text)
+	}
+	return t, true
+}
+
+// assumeMapInv assumes ok ==> invariant(key, val); quantified parts are kept for late instantiation.
+func (x *Exec) assumeMapInv(st *State, key, val V, ok string) {
+	if x.con == nil || x.con.MapInv == nil {
+		return
+	}
+	env := &CEnv{st: st, vars: map[string]V{"key": key, "val": val, "mapentryok": vBool(ok)}, fn: x.key}
+	e := &CExpr{Op: "bin", Tok: "==>", Args: []*CExpr{{Op: "ident", Tok: "mapentryok"}, x.con.MapInv.Expr}}
+	if err := st.assumeClause(env, e); err != nil {
+		x.warn("map invariant: %v", err)
+		return
+	}
+	x.noteAssumption(x.key + ": map invariant assumed for entries read: " + x.con.MapInv.Text)
 }
